@@ -145,3 +145,33 @@ Proof.
     unfold cmd_ok in *. cbn [pre chead conts]. simpl. rewrite Hf. simpl. exact H1.
   - rewrite map_map. apply map_ext. intros c. reflexivity.
 Qed.
+
+(* ---------- load: the stream of several files ---------- *)
+Lemma expand_ext : forall c1 c2, (forall n, c1 n = c2 n) ->
+  forall fuel cs, expand c1 fuel cs = expand c2 fuel cs.
+Proof.
+  intros c1 c2 H. induction fuel as [|f IH]; intros cs.
+  - induction cs as [|c rest IHc]; [reflexivity|].
+    cbn [expand]. cbn [expand] in IHc. destruct (load_target c); try reflexivity; try (rewrite IHc; reflexivity).
+  - induction cs as [|c rest IHc]; [reflexivity|].
+    cbn [expand]. cbn [expand] in IHc. destruct (load_target c); try reflexivity.
+    + rewrite IHc. reflexivity.
+    + rewrite H. destruct (c2 n); try reflexivity. rewrite !IH. rewrite IHc. reflexivity.
+Qed.
+
+(* every file laid out two ways (same commands per file, both well formed): same stream *)
+Theorem load_layout_invariant_proof : forall (fsd1 fsd2 : str -> option ldoc) fuel d1 d2,
+  (forall n, match fsd1 n, fsd2 n with
+             | Some a, Some b => doc_ok a = true /\ doc_ok b = true /\ doc_cmds a = doc_cmds b
+             | None, None => True
+             | _, _ => False
+             end) ->
+  doc_ok d1 = true -> doc_ok d2 = true -> doc_cmds d1 = doc_cmds d2 ->
+  stream_of_files (render_fs fsd1) fuel (render d1) = stream_of_files (render_fs fsd2) fuel (render d2).
+Proof.
+  intros fsd1 fsd2 fuel d1 d2 H H1 H2 He. unfold stream_of_files.
+  rewrite !layout_invariant_proof by auto. rewrite He.
+  apply expand_ext. intros n. unfold render_fs. specialize (H n).
+  destruct (fsd1 n) as [a|], (fsd2 n) as [b|]; simpl; try contradiction; auto.
+  destruct H as (Ha & Hb & E). rewrite !layout_invariant_proof by auto. rewrite E. reflexivity.
+Qed.
